@@ -160,3 +160,30 @@ def finish(pid, tier, t0, design, verdicts, known=None, extra_cov=None, assumpti
         log("  " + fresh[0][0]["what"])
         return 1
     return 0
+
+
+def apalache(module, init="Init", next_="Next", inv="Inv", length=0, cinit=None, expect_error=False, domain=""):
+    """Symbolic check with Apalache (whole integer ranges, which TLC cannot enumerate).  A failure to prove is a
+    property of the specification, not of /repo: it is an infrastructure failure (exit 2), never a verdict."""
+    import shutil, tempfile, subprocess
+    d = tempfile.mkdtemp(prefix="apa-", dir=scratch())
+    shutil.copy(os.path.join(SPEC, module + ".tla"), d)
+    t0 = time.time()
+    cmd = ["apalache-mc", "check", "--init=" + init, "--next=" + next_, "--inv=" + inv, "--length=%d" % length]
+    if cinit:
+        cmd.append("--cinit=" + cinit)
+    try:
+        p = subprocess.run(cmd + [module + ".tla"], cwd=d, capture_output=True, text=True, timeout=900)
+    except subprocess.TimeoutExpired:
+        raise Infra("apalache timeout on %s.tla" % module)
+    out = p.stdout + p.stderr
+    what = "%s.tla init=%s next=%s inv=%s length=%d" % (module, init, next_, inv, length)
+    if expect_error:
+        if "The outcome is: Error" not in out:
+            raise Infra("control failed: Apalache did not refute %s\n%s" % (what, out[-2000:]))
+        log("[apalache] %s: refuted as expected (%.1fs)" % (what, time.time() - t0))
+        return {"check": what, "outcome": "Error (expected: control)", "wall_s": round(time.time() - t0, 1)}
+    if "The outcome is: NoError" not in out:
+        raise Infra("Apalache did not prove %s (a property of the specification, not of /repo):\n%s" % (what, out[-2000:]))
+    log("[apalache] %s: NoError (%.1fs)" % (what, time.time() - t0))
+    return {"check": what, "outcome": "NoError", "wall_s": round(time.time() - t0, 1), "domain": domain}
